@@ -458,25 +458,43 @@ pub fn check_head(c: &HeadCase, eff: &Effective, head: &[u8]) -> Result<ReqHead,
             ));
         }
     }
-    // then the inherited ones: same multiset, per-name order kept
+    // then the inherited ones, per name in order. On a fresh flow every original header must be there. After a redirect
+    // the statements name what must NOT be inherited (cookie, content-length, authorization unless kept); they do not promise
+    // that everything else is: a client may drop headers that describe the previous request or its body, so for those names
+    // (and only after a redirect) a subsequence is accepted.
+    const REQUEST_SPECIFIC: [&str; 12] = ["expect", "te", "transfer-encoding", "content-type", "content-encoding", "content-language", "referer", "origin", "if-none-match", "if-match", "if-modified-since", "range"];
     let rest = &fields[c.added.len()..];
-    if rest.len() != eff.inherited.len() {
-        return Err(format!(
-            "{} original headers on the wire, expected {}: wire {:?} vs expected {:?}",
-            rest.len(),
-            eff.inherited.len(),
-            rest.iter().map(show).collect::<Vec<_>>(),
-            eff.inherited.iter().map(show).collect::<Vec<_>>()
-        ));
-    }
+    let redirected = !c.hops.is_empty();
     let mut names: Vec<String> = eff.inherited.iter().map(|(k, _)| k.to_ascii_lowercase()).collect();
+    for (k, _) in rest {
+        names.push(k.to_ascii_lowercase());
+    }
     names.sort();
     names.dedup();
     for n in names {
         let want: Vec<&Vec<u8>> = eff.inherited.iter().filter(|(k, _)| k.eq_ignore_ascii_case(&n)).map(|(_, v)| v).collect();
         let got: Vec<&Vec<u8>> = rest.iter().filter(|(k, _)| k.eq_ignore_ascii_case(&n)).map(|(_, v)| v).collect();
-        if want != got {
-            return Err(format!("original header {:?}: values on the wire {:?}, expected {:?}", n, got.iter().map(|v| String::from_utf8_lossy(v).to_string()).collect::<Vec<_>>(), want.iter().map(|v| String::from_utf8_lossy(v).to_string()).collect::<Vec<_>>()));
+        let ok = if redirected && REQUEST_SPECIFIC.contains(&n.as_str()) {
+            // in-order subsequence
+            let mut j = 0;
+            got.iter().all(|g| {
+                while j < want.len() && want[j] != *g {
+                    j += 1;
+                }
+                j += 1;
+                j <= want.len()
+            })
+        } else {
+            want == got
+        };
+        if !ok {
+            return Err(format!(
+                "original header {:?}: values on the wire {:?}, expected {:?} (all original headers on the wire: {:?})",
+                n,
+                got.iter().map(|v| String::from_utf8_lossy(v).to_string()).collect::<Vec<_>>(),
+                want.iter().map(|v| String::from_utf8_lossy(v).to_string()).collect::<Vec<_>>(),
+                rest.iter().map(show).collect::<Vec<_>>()
+            ));
         }
     }
     Ok(h)
